@@ -242,6 +242,10 @@ fn args_for(rng: &mut Rng, d: &DeclSpec, pay: Payloads) -> Vec<Vec<u8>> {
 }
 
 pub fn fail_code(rng: &mut Rng) -> i16 {
+    if rng.chance(1, 6) {
+        // the handler raises one of the library's standard errors
+        return *rng.pick(&[-200i16, -220, -221, -222, -224, -240, -400]);
+    }
     // unique-looking device specific codes, away from the standard numbers
     (1000 + rng.below(20000)) as i16 * if rng.chance(1, 2) { 1 } else { -1 }
 }
@@ -301,7 +305,9 @@ pub fn valid_msg(rng: &mut Rng, m: &Model, o: &MsgOpts) -> Msg {
             units.push(u);
         }
     }
-    Msg { units, semi: o.blank && rng.chance(1, 8), lead: vec![] }
+    // white space in front of the first unit is allowed (and skipped) by the syntax
+    let lead = if o.blank && rng.chance(1, 8) { vec![*rng.pick(b" \t"); rng.range(1, 3)] } else { vec![] };
+    Msg { units, semi: o.blank && rng.chance(1, 8), lead }
 }
 
 // ------------------------------------------------------------------ faults
@@ -310,7 +316,7 @@ pub const SYNTAX_SHAPES: &[&str] = &[
     "!", "FOO!", "FOO 1 2", "FOO ,", "FOO 1,", "FOO::BAR", "1FOO", "FOO 1,,2", "FOO @", "SYST:", "FOO &",
     "FOO #HZZ", "FOO 1e", "\"str\"", "FOO??", "FOO ?", "*", "**RST", "FOO #Q9", "FOO #B2", "= 1",
     // malformed block headers that are complete (no data is awaited)
-    "BLK #1:", "BLK #1/", "BLK #1a", "BLK #2 1x", "BLK #0", "BLK #", "BLK #1-", "BLK #1+", "BLK #2:0",
+    "FOO #H", "FOO #B", "FOO #Q", "FOO 1,#H", "FOO #h", "FOO 1e+", "FOO -", "FOO +.", "BLK #1:", "BLK #1/", "BLK #1a", "BLK #2 1x", "BLK #0", "BLK #", "BLK #1-", "BLK #1+", "BLK #2:0",
 ];
 
 /// the declaration `path` (compound, spelled) with the same kind exists?
@@ -364,8 +370,25 @@ pub fn make_faulty(rng: &mut Rng, m: &Model, ctx: &[String], u: &Unit, kind: u8)
                 let full = full_header(ctx, u);
                 // the variants that depend on what the header resolves to are only used
                 // for a unit that starts at the root (first unit of its message)
-                let variants = if ctx.is_empty() && !u.colon { 4 } else { 2 };
+                let variants = if ctx.is_empty() && !u.colon { 5 } else { 2 };
                 match rng.below(variants) {
+                    4 => {
+                        // a leaf that is declared elsewhere in the tree, grafted below this
+                        // header's directory where it is not declared (misplaced level)
+                        let mut dir = full.clone();
+                        dir.pop();
+                        let mut leaves: Vec<&str> = m.spelled.iter().filter(|s| !m.decl(s.decl).is_common()).filter_map(|s| s.path.last().copied()).collect();
+                        leaves.sort();
+                        leaves.dedup();
+                        let leaf = *rng.pick(&leaves);
+                        let mut cand = dir.clone();
+                        cand.push(leaf.to_string());
+                        if declared(m, &cand, u.query) || declared(m, &cand, !u.query) || m.continuing(&cand.iter().map(|x| x.as_str()).collect::<Vec<_>>()).len() > 0 {
+                            return None;
+                        }
+                        *f.mnems.last_mut()? = leaf.to_string();
+                        f.args.clear();
+                    }
                     0 => {
                         // unknown mnemonic at the leaf
                         *f.mnems.last_mut()? = "NOPE".into();
